@@ -234,7 +234,7 @@ Proof.
 Qed.
 
 Ltac flags_false Hl Hr :=
-  cbn [gleak grace upd upd_th upd_sh mark_race set_glast set_gleak] in Hl, Hr;
+  cbn [gleak grace upd upd_th upd_sh mark_race set_glast set_gleak set_alock] in Hl, Hr;
   try discriminate Hl;
   try (apply orb_false_elim in Hr; destruct Hr as (Hr & Hcov)).
 
@@ -254,7 +254,7 @@ Proof.
   all: try match goal with |- context [match ents ?x with _ => _ end] => destruct (ents x) eqn:? end.
   all: intros Hl' Hr'; flags_false Hl' Hr'.
   all: assert (Hb := Hacct Hl' Hr').
-  all: unfold acct_body; cbn [used shs thr upd upd_th upd_sh mark_race set_glast set_gleak].
+  all: unfold acct_body; cbn [used shs thr upd upd_th upd_sh mark_race set_glast set_gleak set_alock].
   (* nothing that matters to the accounting changes *)
   all: try (solve [eapply acct_same; [exact Hnd | exact Hth | exact Hb | reflexivity | rewrite Hpc; cbn [pc set_pc finish finish_hold contrib cont_charge]; lia | cbn [pc set_pc finish finish_hold clear_ok]; exact I]]).
   (* facts about the shard being touched *)
@@ -413,7 +413,7 @@ Proof.
   all: brk H.
   all: try (inversion H; subst s'; clear H).
   all: try match goal with |- context [match ents ?x with _ => _ end] => destruct (ents x) eqn:? end.
-  all: cbn [thr upd upd_th upd_sh mark_race set_glast set_gleak]; eapply map_fst_lset; eassumption.
+  all: cbn [thr upd upd_th upd_sh mark_race set_glast set_gleak set_alock]; eapply map_fst_lset; eassumption.
 Qed.
 
 Theorem acct_run total limit c0 o progs sched :
